@@ -657,6 +657,15 @@ def recursion_sites(prog):
                 rec = [c for c in f.calls() if c['callee']['usr'] == f.usr and c['id'] in f.descendants(ifs[0]['else'])]
                 if len(rec) == 1 and R.render(rec[0]['args'][4]) == '(arg4 + 1)' and R.render(rec[0]['args'][0]) == 'arg0':
                     out[f.usr] = (4, 0)
+        if f.usr not in out:
+            # depth test hoisted out of the loops: every loop runs to dim[cur], the only recursive call passes (dim, cur + 1)
+            lfs = [normal_for(f, n['id']) for n in fors]
+            rec = [c for c in f.calls() if c['callee']['usr'] == f.usr]
+            tests = [n for n in f.all_nodes({'IfStmt'}) if R.render(n['cond']) in ('(arg4 == (arg0.size - 1))', '(arg4 != (arg0.size - 1))', '((arg0.size - 1) == arg4)')]
+            top_loops = [l for l in lfs if l and not enclosing_fors(f, l['for'])]
+            if fors and all(l is not None for l in lfs) and top_loops and all(R.render(l['bound']) == 'arg0[arg4]' and l['start_cv'] == '0' and l['op'] == '<' for l in top_loops) and \
+                    len(rec) == 1 and len(tests) == 1 and R.render(rec[0]['args'][4]) == '(arg4 + 1)' and R.render(rec[0]['args'][0]) == 'arg0':
+                out[f.usr] = (4, 0)
     except AnalysisBroken:
         pass
     return out
@@ -695,6 +704,39 @@ def nonempty_by_construction(prog, f, cont_render, at_node):
         lf = normal_for(f, fs[0])
         if lf and lf['start_cv'] == '0' and lf['op'] == '<' and uncast(R.render(lf['bound'])) == N and not shrinks_between(prog, f, cont_render, el[0]['id'], at_node):
             return 'scalar branch pushes one element; matrix branch pushes %s != 0 elements' % N
+    return None
+
+
+def overrun_evidence(prog, s, ctx):
+    """positive evidence that an unproved site can be reached with an index outside the container:
+    E1 the only bound on the index is `<= size` (or == size): the index can equal the size;
+    E2 the index is an unconstrained parameter of a public function: any caller value reaches it;
+    E3 a constant index / front / back / pop_back / dereference with no test of the size at all
+       (an empty container reaches it) - the K5 class.
+    Otherwise None: the site is unproved but nothing demonstrates an overrun."""
+    f = s.f
+    R = ctx.setdefault(('R', f.usr), Renderer(f))
+    facts = facts_at(f, R, s.nid)
+    C = uncast(R.render(s.cont_node))
+    size = C + '.size'
+    if s.kind != 'sub':
+        if not any(size in (l, r) for l, op, r, _ in facts):
+            return 'no test of %s precedes the access (an empty container reaches it)' % size
+        return None
+    I = uncast(R.render(s.idx_node))
+    In = f.nodes[f.strip(s.idx_node, 'all')]
+    for l, op, r, _ in facts:
+        if (l == I and r == size and op in ('<=', '==')) or (l == size and r == I and op in ('>=', '==')):
+            if not lt_proved(facts, I, size):
+                return 'the index is only bounded by %s %s %s: it can equal the size' % (l, op, r)
+    if 'cv' in In:
+        if not any(size in (l, r) for l, op, r, _ in facts):
+            return 'element %s is read with no test of %s (a shorter container reaches it)' % (In['cv'], size)
+        return None
+    public = (f.rec.get('access') in ('public', None, 'none')) and not f.rec.get('internal') and '(anonymous namespace)' not in f.qname
+    if In['k'] == 'DeclRefExpr' and In['decl'].get('dk') == 'param' and public:
+        if not any(I in (l, r) for l, op, r, _ in facts):
+            return 'the index is the unchecked parameter `%s` of a public function: every value a caller passes reaches the subscript' % In['decl'].get('name')
     return None
 
 
@@ -750,7 +792,12 @@ def rule(prog, res, scope=None, rule_name='index-site'):
         if j:
             res.undecided(rule_name, inst, f.loc(s.nid), detail + ' (spec/invariants.json justifies this site, but the mechanical part of the justification no longer holds on this tree)', function=f.sig, expr=key)
         else:
-            res.viol(rule_name, inst, f.loc(s.nid), detail, function=f.sig, expr=key)
+            ev_ = overrun_evidence(prog, s, ctx)
+            if ev_:
+                res.viol(rule_name, inst, f.loc(s.nid), '%s: %s' % (detail, ev_), function=f.sig, expr=key)
+            else:
+                res.undecided(rule_name, inst, f.loc(s.nid), (detail or '') + ' [no proof found, and no input that overruns is demonstrated: the index is computed from values the rule cannot relate to the size]',
+                              function=f.sig, expr=key)
     res.info.setdefault('index_site_idioms', {}).update(per)
     return n
 
